@@ -260,6 +260,8 @@ def run(case):
             _drop(f0, h5); _drop(f1, h5)
     if op == 'gsr2a':
         return _spans_out(S.get_spans(fields=(_rle_array(case['c0']), _rle_array(case['c1']))))
+    if op == 'apr':
+        return _run_apply_rle(case)
     if op == 'gs2f':
         h5 = case.get('h5', False)
         f0, f1 = _field(case['c0'], h5), _field(case['c1'], h5)
@@ -293,6 +295,33 @@ def run(case):
             d, fl = getattr(ops, 'apply_spans_index_of_%s_filter' % fn)(spans, dest, flt)
         return [_ints(d), [1 if x else 0 for x in fl]]
     raise ValueError(op)
+
+
+def _run_apply_rle(case):
+    """apply_spans_* on a run-length encoded (large) numeric / fixed column; spans are valid by construction."""
+    np, ops = _np, _ops
+    fn, level, rc = case['fn'], case['level'], case['col']
+    k = rc['k']
+    spans = np.array(case['spans'], dtype=np.int32 if case['sdt'] == 'int32' else np.int64)
+    if level == 'kernel':
+        r = getattr(ops, 'apply_spans_' + fn)(spans, _rle_array(rc))
+    elif level == 'session':
+        target = _rle_field(rc) if case.get('tf') else _rle_array(rc)
+        r = getattr(S, 'apply_spans_' + fn)(spans, target)
+    else:
+        h5 = case.get('h5', False)
+        f = _rle_field(rc, h5)
+        try:
+            if case.get('inplace'):
+                g = getattr(f, 'apply_spans_' + fn)(spans, in_place=True)
+            else:
+                g = getattr(f, 'apply_spans_' + fn)(spans)
+            r = g.data[:]
+        finally:
+            _drop(f, h5)
+    if fn in ('min', 'max', 'first', 'last'):
+        return {'v': _vals_out(r, k), 'dt': str(r.dtype)}
+    return {'v': _ints(r), 'dt': str(r.dtype)}
 
 
 def _run_apply(case):
@@ -381,6 +410,9 @@ def to_val(case):
         return [20, _wrle(case['col'])]
     if op in ('gsr2f', 'gsr2a'):
         return [21, _wrle(case['c0']), _wrle(case['c1'])]
+    if op == 'apr':
+        lv = {'kernel': 0, 'session': 1, 'field': 2}[case['level']]
+        return [22, KID[case['fn']], lv, case['spans'], _wrle(case['col'])]
     if op == 'gs':
         return [1, _wcol(case['col'])]
     if op == 'gs2f':
@@ -428,7 +460,7 @@ def _shape(case, v):
         return [v, 'int32']
     if op in ('sorted', 'bs', 'apf'):
         return v
-    if op == 'ap':
+    if op in ('ap', 'apr'):
         fn, k = case['fn'], case['col']['k']
         if k == 'indexed':
             if case['level'] == 'kernel':
@@ -475,6 +507,26 @@ def features(case, model):
     op = case['op']
     if op in ('gsr', 'gsr2f', 'gsr2a'):
         return f + _rle_features(case)
+    if op == 'apr':
+        rc, sp = case['col'], case['spans']
+        n = _rle_rows(rc)
+        f += ['fn:' + case['fn'], 'level:' + case['level'], 'sdt:' + case['sdt'], 'kind:' + rc['k'],
+              'rle:rows>=2^%d' % (n.bit_length() - 1)]
+        K = case.get('K')
+        if K:
+            f.append('rle:K=%d' % K)
+            f.append('rle:K-new-literal-of-tree-under-test' if case.get('hotK') else 'rle:K-standing-sweep')
+            if any(a < m * K < b for a, b in zip(sp, sp[1:]) for m in (1, 2)): f.append('rle:span-straddles-multiple-of-K')
+            if any(x in (K, 2 * K) for x in sp[1:-1]): f.append('rle:span-starts-at-multiple-of-K')
+            bs = set(_rle_bounds(rc))
+            if bs & {K, 2 * K}: f.append('rle:value-changes-at-multiple-of-K')
+        if case.get('layout'): f.append('rle:layout=' + case['layout'])
+        if sp[0] != 0 or sp[-1] != n: f.append('spans-cover-part-of-column')
+        if len(sp) == 2: f.append('one-span')
+        if case.get('inplace'): f.append('in_place')
+        if case.get('tf'): f.append('target-is-field')
+        if case.get('h5'): f.append('hdf5-backed')
+        return f
 
     def colfeat(col, tag=''):
         rows, k = col['rows'], col['k']
@@ -623,6 +675,9 @@ NOJIT_LOOP_ROWS = 1 << 17
 
 def skip(case, mode):
     op = case['op']
+    if mode == 'nojit' and op == 'apr':
+        # apply_spans_min / max walk the rows of every span in a python loop when numba is off
+        return case['fn'] in ('min', 'max') and _rle_rows(case['col']) > NOJIT_LOOP_ROWS
     if mode == 'nojit' and op in ('gsr', 'gsr2f', 'gsr2a'):
         cols = [case['col']] if op == 'gsr' else [case['c0'], case['c1']]
         n = _rle_rows(cols[0])
@@ -828,12 +883,74 @@ def _gen_rle(tier, rng):
             yield {'op': 'gsr2a', 'K': K, 'layout': 'random', 'c0': c0, 'c1': c1}
 
 
+_RLE_ORD_FIXED = [[97], [97, 32], [98]]      # NUL-padded byte order = code order
+APR_KINDS = ['int8', 'int32', 'fixed', 'float32', 'cat', 'int64', 'float64', 'ts']
+APR_FNS = ['min', 'index_of_min', 'max', 'index_of_max', 'first', 'last']
+
+
+def _runs_from_marks(n, marks, bg=1):
+    runs, pos = [], 0
+    for p in sorted(marks):
+        if not 0 <= p < n:
+            continue
+        if p > pos:
+            runs.append((bg, p - pos))
+        runs.append((marks[p], 1)); pos = p + 1
+    if pos < n:
+        runs.append((bg, n - pos))
+    return runs
+
+
+def _gen_rle_apply(tier, rng):
+    """reductions on large columns: the extreme row sits at / next to a multiple of K, spans straddle / start at it."""
+    big = tier == 'thorough'
+    t = 0
+    for ki, (K, new) in enumerate(rle_sizes(tier)):
+        if K < 4:
+            continue
+        n = 2 * K + 2
+        cols = [('low@K-1,high@K', {K - 1: 0, K: 2}), ('low@K,high@K-1', {K: 0, K - 1: 2}),
+                ('low@K=2K,high@K-1=2K+1', {K: 0, 2 * K: 0, K - 1: 2, 2 * K + 1: 2}),
+                ('low@K+1,high@2K', {K + 1: 0, 2 * K: 2}), ('low@0=N-1,high@K', {0: 0, n - 1: 0, K: 2}),
+                ('constant', {})]
+        spans = [('whole', [0, n]), ('split@K', [0, K, n]), ('split@K-1,K+1', [0, K - 1, K + 1, n]),
+                 ('split@K+1,2K', [0, K + 1, 2 * K, n]), ('many', [0, 1, K, K + 1, 2 * K, 2 * K + 1, n]),
+                 ('part:K-1..K+1', [K - 1, K + 1]), ('part:1..K..2K', [1, K, 2 * K])]
+        every = big or new
+        for ci, (cname, marks) in enumerate(cols):
+            for si, (sname, sp) in enumerate(spans):
+                if not every and (ci + si + ki) % 2:
+                    continue
+                fns = APR_FNS if every else [APR_FNS[(t + ki) % 6]]
+                for fn in fns:
+                    t += 1
+                    k = APR_KINDS[t % len(APR_KINDS)]
+                    if not _rle_fits(k, n):
+                        k = 'int8'
+                    level = ['kernel', 'session', 'field'][t % 3]
+                    if level == 'field' and (fn.startswith('index_of') or k == 'cat'):
+                        level = 'kernel'
+                    if level == 'session' and sname.startswith('part'):
+                        level = 'kernel'
+                    runs = _runs_from_marks(n, marks)
+                    col = ({'k': k, 'w': 2, 'runs': [[list(_RLE_ORD_FIXED[v]), m] for v, m in runs]} if k == 'fixed'
+                           else {'k': k, 'runs': [[v, m] for v, m in runs]})
+                    case = {'op': 'apr', 'fn': fn, 'level': level, 'sdt': 'int32' if (t // 3) % 2 else 'int64',
+                            'spans': sp, 'col': col, 'K': K, 'hotK': bool(new), 'layout': cname + '/' + sname}
+                    if level == 'session' and t % 4 == 0: case['tf'] = True
+                    if level == 'field' and t % 5 == 0: case['inplace'] = True
+                    if level == 'field' and t % 7 == 0 and n * _ITEMSIZE[k] <= RLE_H5_BYTES: case['h5'] = True
+                    yield case
+
+
 RLE_STRIDE = 48      # one large case after this many small ones: spreads them over the worker batches
 
 
 def gen(tier, rng):
     import random
-    larges = _gen_rle(tier, random.Random(rng.getrandbits(64)))
+    larges = itertools.chain.from_iterable(itertools.zip_longest(
+        _gen_rle(tier, random.Random(rng.getrandbits(64))), _gen_rle_apply(tier, rng)))
+    larges = (c for c in larges if c is not None)
     n = 0
     for c in _gen_small(tier, rng):
         yield c
